@@ -22,9 +22,14 @@ from frouros.datasets.synthetic import SEA, Dummy  # noqa: E402
 THR = {1: 8.0, 2: 9.0, 3: 7.0, 4: 9.5}
 
 
+EDGE_SEEDS = [0, 1, 2**32 - 1]
+
+
 def sea_cases(out: Outcome, rng, n_cases: int, lines, expect) -> None:
-    for _ in range(n_cases):
+    for case in range(n_cases):
         seed, block, noise, n = rng.randint(0, 2**31 - 1), rng.choice([1, 2, 3, 4]), rng.choice([0.0, 0.0, 0.1, 0.5, 1.0]), rng.randint(1, 60)
+        if case < len(EDGE_SEEDS):       # the falsy seed and the ends of NumPy's seed range are seeds like any other
+            seed = EDGE_SEEDS[case]
         gen1 = SEA(seed=seed)
         data = list(gen1.generate_dataset(block=block, noise=noise, num_samples=n))
         rep = {"generator": "SEA", "seed": seed, "block": block, "noise": noise, "num_samples": n}
@@ -60,8 +65,10 @@ def sea_cases(out: Outcome, rng, n_cases: int, lines, expect) -> None:
                     out.violation(f"SEA: the {name} of two datasets requested from one generator (blocks {b1}, {b2}) is not labelled with its own block threshold", {"blocks": [b1, b2]})
                     break
         out.case({"generator": "SEA", "two_datasets": [b1, b2]})
-    for _ in range(n_cases // 2 + 1):
+    for case in range(n_cases // 2 + 1):
         seed, cls, n = rng.randint(0, 2**31 - 1), rng.choice([0, 1]), rng.randint(1, 40)
+        if case < len(EDGE_SEEDS):
+            seed = EDGE_SEEDS[case]
         data = list(Dummy(seed=seed).generate_dataset(class_=cls, num_samples=n))
         rep = {"generator": "Dummy", "seed": seed, "class": cls, "num_samples": n}
         if len(data) != n:
@@ -107,12 +114,57 @@ def sea_cases(out: Outcome, rng, n_cases: int, lines, expect) -> None:
 
 
 class FakeResponse:
-    def __init__(self, ok, status_ok=True, content=b""):
-        self.ok, self._status_ok, self.content = ok, status_ok, content
+    def __init__(self, ok, status_ok=True, content=b"", content_error=None):
+        self.ok, self._status_ok, self._content, self._content_error = ok, status_ok, content, content_error
+
+    @property
+    def content(self):
+        if self._content_error is not None:
+            raise self._content_error
+        return self._content
 
     def raise_for_status(self):
         if not self._status_ok:
             raise requests.exceptions.HTTPError("status")
+
+
+# further ways a mirror can be unreachable: every one is a requests.exceptions.RequestException and must fall through
+# to the next mirror exactly like a connection error (the model's alphabet maps them all to `c`)
+EXTRA_MODES = {
+    "r": ("head", requests.exceptions.TooManyRedirects("loop")),
+    "R": ("get", requests.exceptions.TooManyRedirects("loop")),
+    "s": ("head", requests.exceptions.SSLError("cert")),
+    "x": ("get", requests.exceptions.RequestException("generic")),
+    "T": ("get", requests.exceptions.ReadTimeout("slow body")),
+    "k": ("content", requests.exceptions.ChunkedEncodingError("dropped mid-download")),
+    "d": ("content", requests.exceptions.ContentDecodingError("bad gzip")),
+    "y": ("head", requests.exceptions.ProxyError("proxy")),
+}
+
+
+def fake_network(plan):
+    """scripted requests.head / requests.get for the mirror plan {url: mode}"""
+    contacted = []
+
+    def head(url, timeout=None, **kw):
+        contacted.append(url)
+        m = plan[url]
+        if m == "c":
+            raise requests.exceptions.ConnectionError("down")
+        if m == "t":
+            raise requests.exceptions.Timeout("slow")
+        if m in EXTRA_MODES and EXTRA_MODES[m][0] == "head":
+            raise EXTRA_MODES[m][1]
+        return FakeResponse(ok=(m != "h"))
+
+    def get(url, stream=None, timeout=None, **kw):
+        m = plan[url]
+        if m in EXTRA_MODES and EXTRA_MODES[m][0] == "get":
+            raise EXTRA_MODES[m][1]
+        cerr = EXTRA_MODES[m][1] if m in EXTRA_MODES and EXTRA_MODES[m][0] == "content" else None
+        return FakeResponse(ok=True, status_ok=(m != "g"), content=(b"ERROR PAGE " if m == "g" else b"DATA-") + url.encode(), content_error=cerr)
+
+    return head, get, contacted
 
 
 class ThreeMirrors(BaseDatasetDownload):
@@ -187,14 +239,128 @@ def download_cases(out: Outcome, lines, expect, kmax: int) -> None:
         requests.head, requests.get = real_head, real_get
 
 
+class HistMirrors(BaseDatasetDownload):
+    bad_read = False
+
+    def read_file(self, **kwargs):
+        with open(self.file_path, "rb") as f:
+            data = f.read()
+        if self.bad_read:
+            raise IndexError("malformed")
+        return data
+
+
+def history_cases(out: Outcome, rng, lines, expect, n_cases: int) -> None:
+    """histories of download()/load() on ONE dataset object, with the target file missing, empty or already holding
+    bytes: a successful download must leave exactly the first reachable mirror's bytes (nothing appended, nothing kept)"""
+    modes = ["c", "h", "g", "t", "ok"] + list(EXTRA_MODES)
+    real_head, real_get = requests.head, requests.get
+    old = b"OLD-CONTENT"
+    try:
+        for case in range(n_cases):
+            k = rng.randint(1, 3)
+            urls = [f"https://mirror{i}.example.org/data.bin" for i in range(k)]
+            plan = {}
+
+            head, get, _ = fake_network(plan)
+            requests.head, requests.get = head, get
+            init = rng.choice(["none", "empty", "old", "old"]) if case >= 3 else ["none", "empty", "old"][case]
+            fd, path = tempfile.mkstemp(dir="/tmp")
+            os.close(fd)
+            if init == "none":
+                os.unlink(path)
+            elif init == "old":
+                with open(path, "wb") as f:
+                    f.write(old)
+            ds = HistMirrors(url=urls, file_path=path)
+            ops = []
+            for _ in range(rng.randint(1, 5) if case >= 3 else 2):
+                r = rng.random()
+                if r < 0.6 or case < 3:
+                    ops.append(("d", [rng.choice(modes + ["ok"]) for _ in range(k)]))
+                else:
+                    ops.append(("l", rng.random() < 0.7))
+            rep = {"mirrors": k, "initial_file": init, "ops": [[o, a] for o, a in ops]}
+            outs = []
+            # oracle state: what the property says the file must hold
+            want_file = {"none": None, "empty": b"", "old": old}[init]
+            loaded = False
+            for o, a in ops:
+                if o == "d":
+                    plan.update(zip(urls, a))
+                    first_ok = next((i for i, m in enumerate(a) if m == "ok"), None)
+                    try:
+                        ds.download()
+                        outs.append("ok")
+                        if first_ok is None:
+                            out.violation(f"download(): no DownloadError although every mirror failed ({a})", rep)
+                        want_file = b"DATA-" + urls[first_ok].encode() if first_ok is not None else want_file
+                    except DownloadError:
+                        outs.append("DownloadError")
+                        if first_ok is not None and not loaded:
+                            out.violation(f"download(): DownloadError although mirror {first_ok} was reachable ({a})", rep)
+                    except Exception as e:  # noqa: BLE001
+                        outs.append(type(e).__name__)
+                        if not loaded:
+                            out.violation(f"download() raised {type(e).__name__} in the history {rep['ops']}", rep)
+                    if not loaded:
+                        have = open(path, "rb").read() if os.path.exists(path) else None
+                        if have != want_file:
+                            out.violation(f"download(): after the history {rep['ops'][:len(outs)]} (target file initially {init}) the file holds {have!r}, "
+                                          f"expected exactly {want_file!r}", rep)
+                else:
+                    ds.bad_read = not a
+                    try:
+                        data = ds.load()
+                        outs.append("data" + tok(data, urls, old))
+                        if data != want_file or os.path.exists(path) or ds.file_path is not None:
+                            out.violation(f"load(): returned {data!r} (expected {want_file!r}) or did not remove the temporary file", rep)
+                        loaded, want_file = True, None
+                    except FileNotFoundError:
+                        outs.append("FileNotFoundError")
+                        if want_file is not None and not loaded:
+                            out.violation("load(): FileNotFoundError although the file exists", rep)
+                    except Exception as e:  # noqa: BLE001
+                        outs.append(type(e).__name__)
+                        if a and not loaded:
+                            out.violation(f"load() raised {type(e).__name__}", rep)
+            have = open(path, "rb").read() if os.path.exists(path) else None
+            final = f"{int(ds.file_path is not None)} {tok(have, urls, old)}"
+            if os.path.exists(path):
+                os.unlink(path)
+            lines.append("dh " + {"none": "none", "empty": "f:", "old": "f:99"}[init] + " " +
+                         " ".join(("d:" + ",".join("ok:" + str(i) if m == "ok" else (m if m in "chgt" else "c") for i, m in enumerate(a))) if o == "d" else ("l:" + str(int(a)))
+                                  for o, a in ops))
+            expect.append((" ".join(outs) + " | " + final, rep))
+            out.case(rep)
+    finally:
+        requests.head, requests.get = real_head, real_get
+
+
+def tok(data, urls, old) -> str:
+    """file content as the model's token list: mirror i's bytes = [i], the pre-existing bytes = [99]"""
+    if data is None:
+        return "none"
+    if data == b"":
+        return "[]"
+    if data == old:
+        return "[99]"
+    for i, u in enumerate(urls):
+        if data == b"DATA-" + u.encode():
+            return f"[{i}]"
+    return "raw:" + data[:60].hex()
+
+
 def run(out: Outcome) -> None:
     rng = rng_for(out.seed, "C20")
     thorough = out.tier == "thorough"
     out.rule = ("SEA/Dummy: random (seed, block, noise, num_samples) with the generator's draws reproduced; argument grid; download: ALL 5^k assignments of "
-                "{connection error, non-OK HEAD, GET error status, timeout, success} to k = 1..3 mirrors (exhaustive)")
+                "{connection error, non-OK HEAD, GET error status, timeout, success} to k = 1..3 mirrors (exhaustive); random histories of "
+                "download()/load() calls on one object with the target file missing, empty or pre-filled")
     lines, expect = [], []
     sea_cases(out, rng, 60 if thorough else 15, lines, expect)
     download_cases(out, lines, expect, 3)
+    history_cases(out, rng, lines, expect, 400 if thorough else 80)
     out.stats["download_assignments_exhaustive"] = True
     got = run_driver(lines)
     for g, (want, rep) in zip(got, expect):
